@@ -107,6 +107,7 @@ type frame struct {
 }
 
 type FCtx struct {
+	typeArgs map[string]types.Type // names of the type parameters of the generic callee whose contract is being evaluated
 	E                 *Engine
 	U                 *Universe
 	FI                *FuncInfo
